@@ -88,6 +88,9 @@ func NewPrintCommand$1$1$1 returns (err)
   dyncall 1 print.printCmd
   modifies *
   modifies ghost(cbLen, cbErr, cbNode, cbStop, cbRet, cbLineNo, cbLine, cbHeader, cbElems, cbNElems, scRd, scPos, privLo, evOf, accKey, accP, accN, accH, bufSink, bufSticky, sinkFailed, sinkPend, prLen, prSink, prArg, prArgs, csvLen, csvW, csvN, csvRow, tnodes, tdepth, tmax, tmapOf, jlen, tvLen, tv, tseg, tvSet, adLen, adName, adVal, adSep, adRoot, procLen, procTime, procSrc, lastOpen, cfgRd)
+  // the command is actually run (exactly this call) and its error is what the closure returns
+  ghost after dyncall 1 { let cmdErr := #ret }
+  ensures @runs-the-command [C17 C16] err == cmdErr
   ghost before dyncall 1 {
     assert @streams [C16] #arg0 == streams[0]
     assert @wiring [C16 C06 C14] #arg1.DateFormat == o.GlobalConfig.DateFormat && #arg1.ParserConfig == o.ParserConfig && #arg1.ReporterConfig == o.ReporterConfig && #arg1.FilterConfig == o.FilterConfig
@@ -99,6 +102,9 @@ func NewPrintCommand$1$1 returns (err)
   dyncall 1 print.withFileReaders
   modifies *
   modifies ghost(cbLen, cbErr, cbNode, cbStop, cbRet, cbLineNo, cbLine, cbHeader, cbElems, cbNElems, scRd, scPos, privLo, evOf, accKey, accP, accN, accH, bufSink, bufSticky, sinkFailed, sinkPend, prLen, prSink, prArg, prArgs, csvLen, csvW, csvN, csvRow, tnodes, tdepth, tmax, tmapOf, jlen, tvLen, tv, tseg, tvSet, adLen, adName, adVal, adSep, adRoot, procLen, procTime, procSrc, lastOpen, cfgRd)
+  // the command is actually run (exactly this call) and its error is what the closure returns
+  ghost after dyncall 1 { let cmdErr := #ret }
+  ensures @runs-the-command [C17 C16] err == cmdErr
   ghost before dyncall 1 {
     assert @files [C16] len(#arg0) == 1 && #arg0[0] == o.GlobalConfig.LogFileName
   }
